@@ -355,11 +355,27 @@ class Model:
                                     # Just assign without indexing
                                     val = value
                                 elif isinstance(value, list):
+                                    # An attribute that is set inside the class of an
+                                    # array of components (or with `each`) only has the
+                                    # dimensions of the inner symbol and applies to every
+                                    # component: index it with the trailing indices.
+                                    n_dims = 0
                                     val = value
-                                    for i in ind:
+                                    while isinstance(val, list):
+                                        n_dims += 1
+                                        val = val[0]
+                                    val = value
+                                    for i in ind[len(ind) - n_dims :]:
                                         val = val[i]
                                 elif isinstance(value, (ca.DM, np.ndarray)):
-                                    val = value[ind]
+                                    if isinstance(value, np.ndarray):
+                                        n_dims = value.ndim
+                                    elif value.shape == old_var.symbol.shape:
+                                        n_dims = len(ind)
+                                    else:
+                                        # See above: DM is always 2D, also for 1D values
+                                        n_dims = 1 if value.shape[1] == 1 else 2
+                                    val = value[ind[len(ind) - n_dims :]]
                                     if old_var.python_type in {float, int}:
                                         val = old_var.python_type(val)
                                 else:
